@@ -16,8 +16,11 @@ MCSources == {"store", "loadonly", "define", "refonly", "flagsprefix", "plain", 
               \* one per fault class of C16, at top level, in a block and in an include
               "missinginc", "malformed", "unknownproc", "badcmdline", "strayend", "badflag", "badflagU", "oddpairs", "inblock", "ininclude",
               \* programs whose result depends on what an include / exclude file is parsed WITH
-              "exA", "exB", "incpairs"}
-MCCompiles(s) == s \in {"store", "define", "refonly", "flagsprefix", "plain", "incl", "exA", "exB", "incpairs"}
+              "exA", "exB", "incpairs",
+              \* compiles and formats, but `format --check' objects to it whatever its layout
+              "upperi"}
+MCCompiles(s) == s \in {"store", "define", "refonly", "flagsprefix", "plain", "incl", "exA", "exB", "incpairs", "upperi"}
+MCLints(s)    == s = "upperi"
 MCFormats(s)  == s \notin {"strayend", "badflag", "badflagU", "oddpairs"}
 MCFmtAborts(s) == s \in {"badflag", "badflagU", "oddpairs"}
 
@@ -31,11 +34,12 @@ InitSrcsAll == { Assign("store", "loadonly", "plain"),      \* a stored name mus
               \* faults in the first / middle / last file of an --all run
               Assign("malformed", "plain", "store"), Assign("plain", "missinginc", "define"), Assign("define", "plain", "unknownproc"),
               Assign("exA", "exB", "incpairs"), Assign("incpairs", "exB", "exA"), Assign("badflagU", "incpairs", "plain"),
-              Assign("badcmdline", "strayend", "plain"), Assign("plain", "badflag", "oddpairs"), Assign("inblock", "plain", "ininclude") }
+              Assign("badcmdline", "strayend", "plain"), Assign("plain", "badflag", "oddpairs"), Assign("inblock", "plain", "ininclude"),
+              Assign("upperi", "plain", "define"), Assign("store", "upperi", "strayend") }
 
 InitSrcsQuick == { Assign("store", "loadonly", "plain"), Assign("define", "refonly", "none"), Assign("exA", "exB", "incpairs"),
                    Assign("plain", "unclosed", "define"), Assign("badcmdline", "strayend", "flagsprefix"),
-                   Assign("incl", "badflagU", "oddpairs"), Assign("malformed", "missinginc", "unknownproc"), Assign("inblock", "plain", "ininclude") }
+                   Assign("incl", "badflagU", "oddpairs"), Assign("malformed", "missinginc", "unknownproc"), Assign("inblock", "upperi", "ininclude") }
 InitSrcs == IF Full THEN InitSrcsAll \cup InitSrcsQuick ELSE InitSrcsQuick
 
 Init == /\ src \in InitSrcs
@@ -53,8 +57,13 @@ Edit(f, s) == /\ edits < MaxEdits /\ Present(f) /\ s # src[f]
               /\ exit' = 0 /\ wrote' = {}
               /\ UNCHANGED <<stored, rulesFile, tests, marks>>
 
+\* arguments of the single-target renumber-tests and what they resolve to in the concrete tree
+TestArgs == { <<"932100", "test">>, <<"932100.yaml", "test">>, <<"932110", "parked">>, <<"932110.yaml", "parked">>,
+              <<"notes", "parked">>, <<"932120", "missing">> }
 Cmd == \/ \E f \in FileSet : Generate(f) \/ Compare(f, FALSE) \/ Compare(f, TRUE) \/ FormatCheck(f) \/ Update(f) \/ Format(f)
        \/ CompareAll(FALSE) \/ CompareAll(TRUE) \/ FormatCheckAll \/ RenumberCheck
+       \/ Version \/ \E sh \in {"bash", "zsh", "fish", "powershell"} : Completion(sh)
+       \/ \E t \in TestArgs, ch \in BOOLEAN : RenumberOne(t[1], t[2], ch)
        \/ UpdateAll \/ FormatAll \/ Renumber \/ Copyright("4.1.0-rc1", TRUE) \/ Copyright("four.one", FALSE)
 
 Next == \/ (Cmd /\ UNCHANGED edits)
